@@ -11,6 +11,7 @@ import (
 	"math/rand"
 	"os"
 	"sync"
+	"sync/atomic"
 	"time"
 
 	"gitlab.com/gomidi/midi/v2"
@@ -52,7 +53,34 @@ type LSession struct {
 func cp(b []byte) hx.B { return append(hx.B{}, b...) }
 
 // runSession executes the session on the real code and fills Out / Panic.
+// runSession runs the session under a watchdog: the calls take microseconds; one that has not come back after 10 s never will
+// (recorded as the outcome; the stuck goroutine is left behind and the command stops generating: liveHung).
+var liveHung int32
+
 func runSession(s *LSession) {
+	done := make(chan struct{})
+	work := *s
+	work.Chunks = make([]LChunk, len(s.Chunks))
+	for i, c := range s.Chunks {
+		work.Chunks[i] = LChunk{Dt: c.Dt, Bytes: c.Bytes}
+	}
+	go func() {
+		runSession0(&work)
+		close(done)
+	}()
+	select {
+	case <-done:
+		*s = work
+	case <-time.After(10 * time.Second):
+		atomic.AddInt32(&liveHung, 1)
+		for i := range s.Chunks {
+			s.Chunks[i].Out = []LMsg{}
+		}
+		s.Panic, s.Exact = "timeout: the session did not finish within 10 s (a call never returned)", true
+	}
+}
+
+func runSession0(s *LSession) {
 	var cur []LMsg
 	s.Panic, s.Errs, s.Exact = "", 0, false
 	for i := range s.Chunks {
@@ -472,6 +500,10 @@ func cmdLiveGen(args []string) {
 		s := genSession(r, i, lvl)
 		runWithTwin(s)
 		w.Put(s)
+		if atomic.LoadInt32(&liveHung) > 0 { // the record just written carries the timeout; a stuck goroutine may spin: stop here
+			w.Close()
+			os.Exit(0)
+		}
 	}
 	for i := 0; i < *long; i++ {
 		s := &LSession{ID: *n + i, Lvl: "reader", Cap: caps[r.Intn(len(caps))], Sysex: true, As: true, Tc: true, Feat: []string{"long_garbage"}}
